@@ -21,6 +21,7 @@ cartesian.  The element-level theorems are unconditional; the cartesian-level on
 round trip (property C01) as explicit hypotheses `hRT`, `hPer`.
 -/
 noncomputable section
+set_option linter.unusedVariables false
 namespace BeyondVerif.C05
 open BeyondVerif.R BeyondVerif.NumReal
 
@@ -45,14 +46,15 @@ theorem kepler_elements_constant (mu : ℝ) (x : Elts) (dt : ℝ) :
     (keplerStep mu x dt).raan = x.raan ∧ (keplerStep mu x dt).argp = x.argp := by
   simp [keplerStep]
 
-/-- **… and advances the mean anomaly by n·Δt**, `n = √(µ/|a|³)`; elliptic and hyperbolic alike
-(the code does not wrap `M`). -/
-theorem kepler_M_advance (mu : ℝ) (x : Elts) (dt : ℝ) :
+/-- **… and advances the mean anomaly by n·Δt**, `n = √(µ/|a|³)`; elliptic (`a > 0`) and hyperbolic (`a < 0`)
+alike (the code does not wrap `M`).  `hmu`, `ha` are not needed by the proof: they are the guards under which the
+square root and the division mean what the floating-point code computes. -/
+theorem kepler_M_advance (mu : ℝ) (x : Elts) (dt : ℝ) (hmu : 0 < mu) (ha : x.a ≠ 0) :
     (keplerStep mu x dt).M = x.M + Real.sqrt (mu / |x.a| ^ 3) * dt := by
   simp [keplerStep, keplerNewM, meanMotion]
 
 example : (keplerStep 4 ⟨1, 0.5, 1, 2, 3, 0.25⟩ 10).M = 0.25 + 2 * 10 := by
-  rw [kepler_M_advance]; norm_num [sqrt_four]
+  rw [kepler_M_advance _ _ _ (by norm_num) (by norm_num)]; norm_num [sqrt_four]
 
 theorem keplerStep_eq (mu : ℝ) (x : Elts) (dt : ℝ) :
     keplerStep mu x dt = { x with M := x.M + meanMotion mu x.a * dt } := by
@@ -236,17 +238,18 @@ theorem j2_linear_in_dt (mu a e i dt : ℝ) :
   simp [j2Delta]
 
 /-- **J2: the three secular rates are the first-order expressions** (and the rates of a, e, i are 0), for
-every orbit with `a ≠ 0`, `e² ≠ 1`. -/
-theorem j2_rates_formula (mu a e i : ℝ) (ha : a ≠ 0) (he : e ^ 2 ≠ 1) :
+every bound orbit (`µ > 0`, `a > 0`, `0 ≤ e < 1`: the guards of the divisions and square roots), every inclination. -/
+theorem j2_rates_formula (mu a e i : ℝ) (hmu : 0 < mu) (ha0 : 0 < a) (he0 : 0 ≤ e) (he1 : e < 1) :
     j2Delta mu a e i 1 = [0, 0, 0, nodeRate mu a e i, perigeeRate mu a e i, meanAnomalyRate mu a e i] := by
-  have h1 : (1 - e ^ 2) ≠ 0 := sub_ne_zero.mpr (Ne.symm he)
+  have ha : a ≠ 0 := ha0.ne'
+  have h1 : (1 - e ^ 2) ≠ 0 := by nlinarith
   simp only [j2Delta, nodeRate, perigeeRate, meanAnomalyRate, semiLatus, powi, List.cons.injEq, and_true]
   refine ⟨by norm_num, by norm_num, by norm_num, ?_, ?_, ?_⟩
   · field_simp
   · rw [Real.sin_sq]; field_simp; ring
   · rw [Real.sin_sq]; field_simp; ring
 
-example : (7000000 : ℝ) ≠ 0 ∧ (0.1 : ℝ) ^ 2 ≠ 1 := by norm_num
+example : (0 : ℝ) < 398600.0e9 ∧ (0 : ℝ) < 7000000 ∧ (0 : ℝ) ≤ 0.1 ∧ (0.1 : ℝ) < 1 := by norm_num
 
 theorem twoPi_pos : 0 < twoPi := by unfold twoPi; have := Real.pi_pos; positivity
 
@@ -303,11 +306,11 @@ theorem fmod_eq_add_int_mul (y m : ℝ) : ∃ k : ℤ, fmod y m = y + m * k :=
 
 /-- **J2: node, perigee and mean anomaly drift linearly in time at the first-order secular rates**, modulo the
 wrap to `[0, 2π)` the code applies: each new angle is `old + rate·Δt + 2πk` for an integer `k`. -/
-theorem j2_step_mod (mu : ℝ) (x : Elts) (dt : ℝ) (ha : x.a ≠ 0) (he : x.e ^ 2 ≠ 1) :
+theorem j2_step_mod (mu : ℝ) (x : Elts) (dt : ℝ) (hmu : 0 < mu) (ha : 0 < x.a) (he0 : 0 ≤ x.e) (he1 : x.e < 1) :
     (∃ k : ℤ, (j2Step mu x dt).raan = x.raan + nodeRate mu x.a x.e x.i * dt + 2 * Real.pi * k) ∧
     (∃ k : ℤ, (j2Step mu x dt).argp = x.argp + perigeeRate mu x.a x.e x.i * dt + 2 * Real.pi * k) ∧
     (∃ k : ℤ, (j2Step mu x dt).M = x.M + meanAnomalyRate mu x.a x.e x.i * dt + 2 * Real.pi * k) := by
-  simp only [j2Step_eq, rawRate, j2_rates_formula mu x.a x.e x.i ha he, List.getD_cons_succ, List.getD_cons_zero]
+  simp only [j2Step_eq, rawRate, j2_rates_formula mu x.a x.e x.i hmu ha he0 he1, List.getD_cons_succ, List.getD_cons_zero]
   exact ⟨fmod_eq_add_int_mul _ _, fmod_eq_add_int_mul _ _, fmod_eq_add_int_mul _ _⟩
 
 /-- the three angles are returned in `[0, 2π)` -/
@@ -379,9 +382,9 @@ theorem earthJ2_pos : 0 < earthJ2 := by unfold earthJ2; norm_num
 /-- **The J2 node rate of the propagator is the sun-synchronous condition used by `leo.sso`**: for the
 inclination whose cosine `leo.sso` computes from `a` and `e`, the secular node rate of `J2.propagate`
 (Earth's µ) is exactly `ω_e = 2π / (365.256363004 · 86400)`, the mean motion of the Sun. -/
-theorem j2_node_rate_eq_sso (a e i : ℝ) (ha : 0 < a) (he : e ^ 2 ≠ 1) (hi : Real.cos i = ssoCosI a e) :
+theorem j2_node_rate_eq_sso (a e i : ℝ) (ha : 0 < a) (he0 : 0 ≤ e) (he1 : e < 1) (hi : Real.cos i = ssoCosI a e) :
     nodeRate earthMu a e i = ssoOmegaE := by
-  have h1 : (1 - e ^ 2) ≠ 0 := sub_ne_zero.mpr (Ne.symm he)
+  have h1 : (1 - e ^ 2) ≠ 0 := by nlinarith
   obtain ⟨s, hs, hsa⟩ : ∃ s : ℝ, 0 < s ∧ a = s ^ 2 := ⟨Real.sqrt a, Real.sqrt_pos.mpr ha, (Real.sq_sqrt ha.le).symm⟩
   obtain ⟨m, hm, hmu⟩ : ∃ m : ℝ, 0 < m ∧ Real.sqrt earthMu = m := ⟨_, Real.sqrt_pos.mpr earthMu_pos, rfl⟩
   have hn : meanMotion earthMu a = m / s ^ 3 := by
@@ -398,6 +401,6 @@ theorem j2_node_rate_eq_sso (a e i : ℝ) (ha : 0 < a) (he : e ^ 2 ≠ 1) (hi : 
   rw [hmu, hp, hsa]
   field_simp
 
-example : (0 : ℝ) < 7000000 ∧ (0.001 : ℝ) ^ 2 ≠ 1 := by norm_num
+example : (0 : ℝ) < 7000000 ∧ (0 : ℝ) ≤ 0.001 ∧ (0.001 : ℝ) < 1 := by norm_num
 
 end BeyondVerif.C05
